@@ -217,6 +217,7 @@ type Closure struct {
 
 // BoundMethod is a method value created by invoke-mode MakeClosure-like wrappers.
 type MapV struct {
+	model bool // made by harness/model code: not race-checked
 	keys []Value
 	vals []Value
 	kt   types.Type
